@@ -77,6 +77,22 @@ func c06Paths() []pathSpec {
 			}
 			return val.Item{"m": val.V{T: "M", M: m}}
 		}},
+		// a name placeholder stands for one attribute name, dots included: the attribute "d.e" is not
+		// the member e of a map d (which the item also holds, with another value)
+		{"#d(dotted name)", "#d", map[string]string{"#d": "d.e"}, func(v *val.V) val.Item {
+			it := val.Item{"d": val.M("e", val.S("decoy"))}
+			if v != nil {
+				it["d.e"] = *v
+			}
+			return it
+		}},
+		{"m.#k(dotted key)", "m.#k", map[string]string{"#k": "x.y"}, func(v *val.V) val.Item {
+			m := map[string]val.V{"x": val.M("y", val.S("decoy"))}
+			if v != nil {
+				m["x.y"] = *v
+			}
+			return val.Item{"m": val.V{T: "M", M: m}}
+		}},
 		{"l[0]", "l[0]", nil, func(v *val.V) val.Item {
 			if v == nil {
 				return val.Item{"l": val.L()}
@@ -448,6 +464,10 @@ func C06(run *ev.Run, tier string) map[string]interface{} {
 				}
 				if !ok {
 					sig := fmt.Sprintf("C06|%s|accepted%s|got=%s", c.form, rx.MaskString(mask), out.O)
+					// recorded finding, attributed only when the defect model predicts this very answer
+					if alt := c.cond.Eval(rx.Env{Item: c.item, Names: c.names, Values: c.values, AliasAsPath: true}); alt != mask && alt&map[string]int{"T": rx.T, "F": rx.F, "E": rx.E}[out.O] != 0 {
+						sig = "C06|placeholder-naming-a-dotted-attribute|explained-by-alias-read-as-document-path"
+					}
 					run.Report(sig, fmt.Sprintf("%q on item %s values %v names %v: accepted %s, observed %s %s", expr, before, c.values, c.names, rx.MaskString(mask), out.O, out.Msg),
 						map[string]interface{}{"expression": expr, "item": c.item, "names": c.names, "values": c.values, "accepted": rx.MaskString(mask), "observed": out.O})
 				}
@@ -483,7 +503,7 @@ func C06(run *ev.Run, tier string) map[string]interface{} {
 		"evaluations":         len(cases) * rounds,
 		"distinct_nontrivial": len(distinct),
 		"distinct_forms":      len(forms),
-		"rule":                "every atomic condition form (6 comparators over path/value, value/path, path/path, value/value; BETWEEN; IN with 1-3 members; attribute_exists, attribute_not_exists, attribute_type, begins_with, contains, size) x every path spelling (a, #a, m.x, m.#x, l[0], l[1], m.l[0].x and never-resolving paths) x every typing of the operands with the ten types and absence (two or three values per type), plus every boolean tree with up to N leaves over NOT/AND/OR/parentheses printed with minimal parentheses; a case is distinct by (expression text, item, bindings); evaluated directly on interpreter.Language.Match against the reference three-valued evaluator with acceptance sets",
+		"rule":                "every atomic condition form (6 comparators over path/value, value/path, path/path, value/value; BETWEEN; IN with 1-3 members; attribute_exists, attribute_not_exists, attribute_type, begins_with, contains, size) x every path spelling (a, #a, m.x, m.#x, #d naming the attribute \"d.e\" next to a map d, m.#k naming the key \"x.y\", l[0], l[1], m.l[0].x and never-resolving paths) x every typing of the operands with the ten types and absence (two or three values per type), plus every boolean tree with up to N leaves over NOT/AND/OR/parentheses printed with minimal parentheses; a case is distinct by (expression text, item, bindings); evaluated directly on interpreter.Language.Match against the reference three-valued evaluator with acceptance sets",
 		"samples":             samples,
 		"exhaustive":          true,
 		"outcome_histogram":   hist,
